@@ -19,7 +19,6 @@ import (
 	"iter"
 	"os"
 	"path/filepath"
-	"runtime"
 	"sort"
 	"strings"
 	"sync"
@@ -205,7 +204,9 @@ func (cl *cluster) barrierAll(id uint64) ([]*snapshotpb.OperatorCheckpoint, erro
 	return acks, nil
 }
 
-const spWait = 30 * time.Second
+// No wait in this file has a deadline: a publication that never happens is a hang of the implementation, which the
+// supervisor of hx reports against this case after its own (generous) bound; a deadline here could only turn a slow
+// but correct run into a failure.
 
 func (cl *cluster) savepointRestart(o op, tags map[string]bool, tableIDs map[string]int, nkeys int, terms *[]string) (string, any, bool, error) {
 	if cl.js == nil {
@@ -283,11 +284,7 @@ func (cl *cluster) savepointRestart(o op, tags map[string]bool, tableIDs map[str
 	}
 	*terms = append(*terms, fmt.Sprintf("SSave (SpFold %s %d %d %s %d %d)", hx.CoqBool(o.Fold), pendingID, counterBefore, sresCoq(id, created, nil), nextID-1, id))
 	if o.Late {
-		select {
-		case <-js.loc.arrived:
-		case <-time.After(spWait):
-			return "", nil, false, fmt.Errorf("the publication of checkpoint %d never started", id)
-		}
+		<-js.loc.arrived
 		if o.Retain {
 			for _, a := range cl.ops {
 				// the job ignores the result of this call as well (jobs/job.go); a failure is only tagged
@@ -317,8 +314,6 @@ func (cl *cluster) savepointRestart(o op, tags map[string]bool, tableIDs map[str
 			case <-js.events:
 			case e := <-js.errs:
 				return "", nil, false, fmt.Errorf("the next checkpoint %d failed to publish: %v", nextID, e)
-			case <-time.After(spWait):
-				return "", nil, false, fmt.Errorf("the next checkpoint %d was never published", nextID)
 			}
 			tags["savepoint-overtaken"] = true
 		}
@@ -331,12 +326,6 @@ func (cl *cluster) savepointRestart(o op, tags map[string]bool, tableIDs map[str
 	case <-js.events:
 	case e := <-js.errs:
 		published, failure = false, e.Error()
-	case <-time.After(spWait):
-		if f := os.Getenv("RESCALE_STACKS"); f != "" {
-			buf := make([]byte, 1<<20)
-			os.WriteFile(f, buf[:runtime.Stack(buf, true)], 0o644)
-		}
-		return "", nil, false, fmt.Errorf("savepoint %d was never published", id)
 	}
 	var spURI string
 	if published {
